@@ -3,7 +3,10 @@ Theorems: coq/Properties/C11.v on the C04 model (Model/ImageM.v).  Tie: relation
 the implementation (union vs sum, permutation, zero-weight points, empty diagram, single vs
 collection, n_jobs, skew vs pre-converted, non-negativity, pixel total <= total weight), each
 evaluated by the independent predicate; for a few additivity cases the sum of the MODEL images of
-the two parts is certified inside Coq against the implementation's image of the union."""
+the two parts is certified inside Coq against the implementation's image of the union.
+Beyond single relation instances: size classes just above typical block sizes (pairs per diagram, diagrams per
+collection) and call histories on ONE imager object (harness/history.py) whose every step is again a relation
+instance; images are kept by reference until all calls of an instance are done."""
 import math
 from fractions import Fraction
 
@@ -29,8 +32,29 @@ RULE = ("seeded generator of relation instances {additivity on unions, permutati
         "weights {persistence, linear_ramp, user}; a quarter of the instances hand integer-valued points over as an int64 array / nested list of ints (and must give the image of the same points as float64); resolutions 2x2 .. 6x5, 1-12 points, points inside / on the "
         "border / outside; tolerance 1e-12 * (1 + total weight) where sums are re-ordered, exact equality for "
         "n_jobs; a case is non-trivial when the images compared are not all-zero (except in the empty class) and "
-        "the relation relates two different calls; distinct = distinct JSON input")
-TRUSTED_BASE = c04.TRUSTED_BASE
+        "the relation relates two different calls; distinct = distinct JSON input. "
+        "SIZES: for every block size T in {48, 512, 4096} + one of {32, 64, 100, 128, 256, 1000, 1024, 2048} per run (thorough: all "
+        "of them, 8192 and 10000) diagrams of T+1 .. T+T/8 pairs on the grid k/1024 (never a multiple of T): additivity with both "
+        "parts below T and the union above (or one part above), permutation, non-negativity / pixel total, each on the isotropic-"
+        "Gaussian fast path and on the kernel-function path, plus alone-vs-collection and skew at one T; 'many': a COLLECTION of "
+        "T+1.. diagrams (T = 48, 512; thorough up to 10000) - number of images, every image serial vs n_jobs in {1,2} bit-identical, "
+        "a sample of diagrams (first, last, middle, around every block size) alone vs inside; resolutions up to 8x7 and 33x3 / 3x65 "
+        "/ 17x9. STYLES: one diagram alone / in a collection / through the workers branch (n_jobs 1, 2) / repeated after the other "
+        "calls, all bit-identical, and image(A u B) = image(A) + image(B) with the parts taken from the collection and from the "
+        "workers; layouts {C-contiguous, Fortran order, strided view inside a nan-filled buffer, read-only, nested list}. "
+        "HISTORIES (harness/history.py): 4-8 relation instances run one after the other on ONE imager that is re-configured between "
+        "them through its public attributes only where the configuration differs (kernel_params / weight_params re-assigned, "
+        "updated in place, sigma matrix overwritten element-wise; kernel / weight function swapped; birth_range, pers_range, "
+        "pixel_size setters there and back; fit / fit_transform again and again on the same object), on diagram objects shared by "
+        "identity whose points share birth values and whole pairs; kinds {kernel sweep, weight sweep, window sweep, refit, calls "
+        "that raise half-way (a malformed diagram in the middle of a collection, serial and through workers; broken weight / "
+        "kernel parameters) followed by clean calls, diagram sweep}. Every step must satisfy its relation, and its image must equal "
+        "(within the tolerance) the image a NEW imager of the same configuration gives for the same diagram. All images of an "
+        "instance are converted only after its last call, so a result overwritten by a later call fails the relation. A size case "
+        "is non-trivial when its diagram / collection really exceeds T and the image is not all-zero; a history when at least two of its steps are non-trivial")
+TRUSTED_BASE = c04.TRUSTED_BASE + [
+    "harness: call histories (harness/history.py) and the re-configuration of the shared imager through public attributes (_imager)",
+]
 ASSUMPTIONS = [
     "joblib.Parallel returns its results in input order (hypothesis of single_eq_collection / "
     "parallel_eq_serial_partial); worker scheduling itself is not modelled - the tie runs n_jobs in {None,1,2,4}",
@@ -39,6 +63,9 @@ ASSUMPTIONS = [
     "kernels and the uniform kernel",
     "the mesh is non-decreasing (C12's invariant) in pixels_nonneg / pixel_total_le_weight",
     "binary64 rounding of the implementation is bounded by the stated tolerances, not proved",
+    "the configuration of an imager is what its public attributes (birth_range, pers_range, pixel_size, weight, weight_params, "
+    "kernel, kernel_params) say at the time of the call: runs on different imager objects of equal configuration are runs of the "
+    "same configuration (history steps compare a re-configured imager with a new one)",
 ]
 TOL = 1e-12
 COQ_DEPS = ["Corr/ImageCorr.vo"]
